@@ -280,6 +280,29 @@ func runC19(r *mon.Run) {
 		numDigitsCheck(t, b, "random")
 	})
 	r.Parallel("reduce", r.N(120000, 6000000), reduceDecCase)
+	if !r.Quick() {
+		// zero runs longer than any power of ten the package will build in one
+		// piece (131072, 262143, 300000, 524288 trailing zeros): one such call
+		// takes seconds, so these run in the thorough tier only
+		runs := []int64{131071, 131072, 200000, 262142, 262143, 262144, 300000, 524288}
+		r.Parallel("reduce-giant-zero-runs", int64(len(runs)), func(t *mon.T) {
+			z := runs[t.Index]
+			m := big.NewInt(t.Rng.Range(1, 99999))
+			for new(big.Int).Mod(m, big.NewInt(10)).Sign() == 0 {
+				m.Add(m, big.NewInt(1))
+			}
+			x := dec.D{Form: dec.Finite, Neg: t.Rng.Bool(), C: new(big.Int).Mul(m, dec.Pow10(z)), E: -z / 2}
+			var d apd.Decimal
+			_, n := d.Reduce(br.ToApd(x))
+			t.Eval()
+			t.Count("reduce-giant-zero-runs")
+			got := br.FromApd(&d)
+			if int64(n) != z || got.C.Cmp(m) != 0 || got.E != x.E+z || got.Neg != x.Neg {
+				t.Fail("reduce-value", map[string]interface{}{"op": "Decimal.Reduce", "trailing_zeros": z, "count": n, "got_coefficient_digits": dec.NumDigits(got.C), "got_exponent": got.E, "want_exponent": x.E + z})
+			}
+			t.Nontrivial(fmt.Sprintf("rgz|%d", z))
+		})
+	}
 	r.Serial("pinned", func(t *mon.T) {
 		// fixed: negative > 128 bits dereferenced nil
 		b, _ := new(big.Int).SetString("-1000000000000000000000000000000000000000000000", 10)
